@@ -326,4 +326,6 @@ def run(ctx):
     from sa.rules.C06 import compare_slots
     ctx.rule('C05.4-agreement', 'the four implementations of every slot agree (a deviation of one body from the Z80 semantics is a deviation from its siblings)', floor=2200)
     compare_slots(ctx, m, (('py', 'cp'), ('cm', 'cc')), 'C05.4-agreement')
+    from sa.rules import fastcopy
+    fastcopy.run(ctx, repo, 'C05.9-fast-copy')
     return report.finish(ctx, EXPLANATION)
